@@ -15,7 +15,7 @@ theorem visitChild_spec (hL : LetterClass L) (hE : EscNotLetter L cfg) {child c3
     (h : visitChild cfg child v = some (c3, tr, v')) :
     (∃ e, v'.st.stash = v.st.stash ++ e) ∧ stashOk L v'.st.stash = true ∧
       nodeOk L v'.st.stash.length c3 = true ∧ kidsOk L v'.st.stash.length tr = true ∧ v'.done = v.done ∧
-      lettersK L v'.st.stash (c3 :: tr) = lettersK L v.st.stash [child] ∧
+      lettersK L v'.st.stash (c3 :: tr) = lettersK L v.st.stash [child] ∧ v'.st.html = v.st.html ∧
       topClean L c3 = true ∧ atomOk L c3 = true ∧ GoodKids L tr ∧ (∀ x ∈ v.pushes, x ∈ v'.pushes) ∧
       (∀ r m, getAt c3 r = some m → dirtyKid L m → ∃ x ∈ v'.pushes, x <+: (v.done.length :: r)) := by
   have hc' := nodeOk_iff.1 hc
@@ -29,10 +29,10 @@ theorem visitChild_spec (hL : LetterClass L) (hE : EscNotLetter L cfg) {child c3
       simp only [Option.some.injEq, Prod.mk.injEq] at h
       obtain ⟨e1, e2, e3⟩ := h
       subst e1; subst e2; subst e3
-      obtain ⟨a1, a2, a3, a4, a5, a6, a7, a8, a9⟩ := textStage_spec hL hE hs hc h1
+      obtain ⟨a1, ah, a2, a3, a4, a5, a6, a6a, a7, a8, a9⟩ := textStage_spec hL hE hs hc h1
       have hle1 := ext_length a1
       have hct : ok L st1.stash.length (c1.tail.getD []) = true := by rw [a6]; exact ok_mono hle1 hc'.2.1
-      obtain ⟨b1, b2, b3, b4, b5, b6, b7, b8, b9, b10⟩ := tailStage_spec hL hE a2 hct h2
+      obtain ⟨b1, bh, b2, b3, b4, b5, b6, b7, b8, b9, b10, b11⟩ := tailStage_spec hL hE a2 hct h2
       have hle2 := ext_length b1
       obtain ⟨x1, hx1⟩ := a1
       obtain ⟨x2, hx2⟩ := b1
@@ -40,12 +40,13 @@ theorem visitChild_spec (hL : LetterClass L) (hE : EscNotLetter L cfg) {child c3
       have hkc : kidsOk L st1.stash.length child.children = true := kidsOk_mono hle1 _ hc'.2.2
       have hat' := atomOk_iff.1 hat
       have htext0 : ok L 0 (c1.text.getD []) = true := a8 hat'.1
-      refine ⟨hext, b2, ?_, b3, rfl, ?_, ?_, ?_, b9, ?_, ?_⟩
+      refine ⟨hext, b2, ?_, b3, rfl, ?_, by rw [bh, ah], ?_, ?_, b9, ?_, ?_⟩
       rotate_left 2
       · simp only [topClean, Bool.and_eq_true, b6]; exact ⟨htext0, b8⟩
       · rw [atomOk_iff]
         simp only [b5, b6, a5]
-        exact ⟨fun _ => htext0, kidsAtomOk_append.2 ⟨kidsAtomOk_of_forall (fun r hr => (a9 r hr).2), hat'.2⟩⟩
+        exact ⟨fun _ => htext0, by rw [b11, a6a]; exact hat'.2.1,
+          kidsAtomOk_append.2 ⟨kidsAtomOk_of_forall (fun r hr => (a9 r hr).2), hat'.2.2⟩⟩
       · intro x hx
         simp only []
         split
@@ -110,7 +111,7 @@ theorem visitLoop_spec (hL : LetterClass L) (hE : EscNotLetter L cfg) :
       (∃ e, v'.st.stash = v.st.stash ++ e) ∧ stashOk L v'.st.stash = true ∧
         kidsOk L v'.st.stash.length v'.done = true ∧
         lettersK L v'.st.stash v'.done.reverse = lettersK L v.st.stash (v.done.reverse ++ todo.map Prod.fst) ∧
-        VInv L v' := by
+        VInv L v' ∧ v'.st.html = v.st.html := by
   intro g
   induction g with
   | zero => intro todo v v' _ _ _ _ _ h; simp [visitLoop] at h
@@ -120,7 +121,7 @@ theorem visitLoop_spec (hL : LetterClass L) (hE : EscNotLetter L cfg) :
     | nil =>
       simp only [visitLoop, Option.some.injEq] at h
       subst h
-      exact ⟨⟨[], by simp⟩, hs, hdone, by simp, hinv⟩
+      exact ⟨⟨[], by simp⟩, hs, hdone, by simp, hinv, rfl⟩
     | cons hd todo =>
       obtain ⟨child, orig⟩ := hd
       simp only [visitLoop] at h
@@ -130,7 +131,7 @@ theorem visitLoop_spec (hL : LetterClass L) (hE : EscNotLetter L cfg) :
         simp only [List.map_cons] at htodo hta
         rw [kidsOk_cons] at htodo
         rw [kidsAtomOk_cons] at hta
-        obtain ⟨a1, a2, a3, a4, a5, a6, a7, a8, a9, a10, a11⟩ := visitChild_spec hL hE hs htodo.1 hta.1 hvc
+        obtain ⟨a1, a2, a3, a4, a5, a6, ahh, a7, a8, a9, a10, a11⟩ := visitChild_spec hL hE hs htodo.1 hta.1 hvc
         have hle := ext_length a1
         have hdone1 : kidsOk L v1.st.stash.length (c :: v1.done) = true := by
           rw [a5]; exact kidsOk_cons.2 ⟨a3, kidsOk_mono hle _ hdone⟩
@@ -164,10 +165,10 @@ theorem visitLoop_spec (hL : LetterClass L) (hE : EscNotLetter L cfg) :
         have hta1 : kidsAtomOk L ((tr.map (fun n => (n, (none : Option Nat))) ++ todo).map Prod.fst) = true := by
           rw [List.map_append, map_fst_map_none]
           exact kidsAtomOk_append.2 ⟨kidsAtomOk_of_forall (fun r hr => (a9 r hr).2), hta.2⟩
-        obtain ⟨b1, b2, b3, b4, b5⟩ := ih _ ⟨c :: v1.done, _, v1.pushes, v1.st⟩ _ a2 hdone1 htodo1 (hinv1 _) hta1 h
+        obtain ⟨b1, b2, b3, b4, b5, bhh⟩ := ih _ ⟨c :: v1.done, _, v1.pushes, v1.st⟩ _ a2 hdone1 htodo1 (hinv1 _) hta1 h
         obtain ⟨x1, hx1⟩ := a1
         obtain ⟨x2, hx2⟩ := b1
-        refine ⟨⟨x1 ++ x2, by rw [hx2]; simp only []; rw [hx1, List.append_assoc]⟩, b2, b3, ?_, b5⟩
+        refine ⟨⟨x1 ++ x2, by rw [hx2]; simp only []; rw [hx1, List.append_assoc]⟩, b2, b3, ?_, b5, by rw [bhh]; exact ahh⟩
         rw [b4]
         simp only [List.map_append, map_fst_map_none, List.reverse_cons, List.map_cons, a5, lettersK_append,
           List.append_assoc]
@@ -272,7 +273,7 @@ theorem getAt_atomOk : ∀ (p : Path) (root cur : Node), getAt root p = some cur
     rw [getAt_cons] at h
     split at h
     · rename_i c hc
-      exact ih c cur h (atomOk_of_mem (atomOk_iff.1 hr).2 c (List.mem_of_getElem? hc))
+      exact ih c cur h (atomOk_of_mem (atomOk_iff.1 hr).2.2 c (List.mem_of_getElem? hc))
     · simp at h
 
 theorem runLoop_spec (hL : LetterClass L) (hE : EscNotLetter L cfg) (g2 : Nat) :
@@ -281,7 +282,8 @@ theorem runLoop_spec (hL : LetterClass L) (hE : EscNotLetter L cfg) (g2 : Nat) :
       atomOk L root = true → Covered L root stack → topClean L root = true →
       runLoop cfg g2 g root stack st = some (root', st') →
       stashOk L st'.stash = true ∧ nodeOk L st'.stash.length root' = true ∧
-        lettersN L st'.stash root' = lettersN L st.stash root ∧ Covered L root' [] ∧ topClean L root' = true := by
+        lettersN L st'.stash root' = lettersN L st.stash root ∧ Covered L root' [] ∧ topClean L root' = true ∧
+        atomOk L root' = true ∧ st'.html = st.html := by
   intro g
   induction g with
   | zero => intro root stack st root' st' _ _ _ _ _ h; simp [runLoop] at h
@@ -292,7 +294,7 @@ theorem runLoop_spec (hL : LetterClass L) (hE : EscNotLetter L cfg) (g2 : Nat) :
       simp only [runLoop, Option.some.injEq, Prod.mk.injEq] at h
       obtain ⟨e1, e2⟩ := h
       subst e1; subst e2
-      exact ⟨hs, hroot, rfl, hcov, htop⟩
+      exact ⟨hs, hroot, rfl, hcov, htop, hatom, rfl⟩
     | cons p stack =>
       simp only [runLoop] at h
       split at h
@@ -315,9 +317,9 @@ theorem runLoop_spec (hL : LetterClass L) (hE : EscNotLetter L cfg) (g2 : Nat) :
           have hc' := nodeOk_iff.1 hcurok
           have hinv0 : VInv L ({ st := st } : Visit) :=
             ⟨fun d hd => (by cases hd), fun j d hj => (by simp at hj)⟩
-          obtain ⟨a1, a2, a3, a4, a5⟩ := visitLoop_spec hL hE g2 (withIdx cur.children 0) { st := st } v hs rfl
+          obtain ⟨a1, a2, a3, a4, a5, avh⟩ := visitLoop_spec hL hE g2 (withIdx cur.children 0) { st := st } v hs rfl
             (by rw [map_fst_withIdx]; exact hc'.2.2) hinv0
-            (by rw [map_fst_withIdx]; exact (atomOk_iff.1 hcurat).2) hv
+            (by rw [map_fst_withIdx]; exact (atomOk_iff.1 hcurat).2.2) hv
           simp only [List.reverse_nil, List.nil_append, map_fst_withIdx] at a4
           have a1' : ∃ e, v.st.stash = st.stash ++ e := a1
           have hle := ext_length a1'
@@ -330,7 +332,7 @@ theorem runLoop_spec (hL : LetterClass L) (hE : EscNotLetter L cfg) (g2 : Nat) :
             rw [a4, lettersF_ext a1' hc'.1]
           obtain ⟨b1, _, b3⟩ := setAt_spec a1' p root cur _ hcur hroot hnew rfl hlet
           have hatom' : atomOk L (setAt root p { cur with children := v.done.reverse }) = true :=
-            atomOk_setAt (new := { cur with children := v.done.reverse }) (cur := cur) rfl rfl
+            atomOk_setAt (new := { cur with children := v.done.reverse }) (cur := cur) rfl rfl rfl
               (kidsAtomOk_of_forall (fun r hr => (a5.good r (List.mem_reverse.1 hr)).2)) p root hcur hatom
           have hcov' : Covered L (setAt root p { cur with children := v.done.reverse })
               (v.pushes.map (p ++ ·) ++ stack.map (remap p v.posmap)) := by
@@ -364,8 +366,8 @@ theorem runLoop_spec (hL : LetterClass L) (hE : EscNotLetter L cfg) (g2 : Nat) :
                 exact remap_of_not_prefix _ (fun hpp => hpq (List.IsPrefix.trans hpp hpre))
           have htop' : topClean L (setAt root p { cur with children := v.done.reverse }) = true := by
             rw [setAt_top (L := L) (new := { cur with children := v.done.reverse }) hcur rfl rfl]; exact htop
-          obtain ⟨c1, c2, c3, c4, c5⟩ := ih _ _ _ _ _ a2 b1 hatom' hcov' htop' h
-          exact ⟨c1, c2, by rw [c3, b3], c4, c5⟩
+          obtain ⟨c1, c2, c3, c4, c5, c6, c7⟩ := ih _ _ _ _ _ a2 b1 hatom' hcov' htop' h
+          exact ⟨c1, c2, by rw [c3, b3], c4, c5, c6, by rw [c7]; exact avh⟩
 
 end
 
